@@ -185,6 +185,13 @@ pub fn exec_probe<M: Machine>(tr: &Trace, stats: &mut Stats, mut probe: Option<&
         if let Some(v) = check_slot::<M>(&w, i, cfg, stats) {
             return (Some(v), reach);
         }
+        if prop == Prop::C09 {
+            if let Some(s) = w.get(i) {
+                if let Some(v) = crate::oracle::doubling_probe_c09::<M>(i, s, stats) {
+                    return (Some(v), reach);
+                }
+            }
+        }
         if tr.isolated {
             if let Some(s) = w.get(i) {
                 let o = M::observe(&s.st, ObsPlan { confs: &all_confs, unguarded: false });
